@@ -204,7 +204,19 @@ void CONmtModeChange(CO_NMT *nmt, CO_MODE mode)
 }
 void CONmtResetRequest(CO_NMT *nmt, CO_NMT_RESET r) { (void)nmt; printf("cb resetreq %d\n", (int)r); }
 void CONmtHbConsEvent(CO_NMT *nmt, uint8_t id)      { (void)nmt; printf("cb hbevent %u %u\n", id, Tick); }
-void CONmtHbConsChange(CO_NMT *nmt, uint8_t id, CO_MODE m) { (void)nmt; printf("cb hbchange %u %d\n", id, (int)m); }
+/* "hbchangecb <sub> <v1> <v2>": the next state change notification makes the application re-configure entry 1016h:<sub> from inside
+ * the callback (v1, then v2 - a new time for a monitored node needs the deactivation first) */
+static int HccSub; static uint32_t HccV1, HccV2;
+void CONmtHbConsChange(CO_NMT *nmt, uint8_t id, CO_MODE m)
+{
+    printf("cb hbchange %u %d\n", id, (int)m);
+    if (HccSub > 0) {
+        int sub = HccSub; HccSub = 0;
+        CO_ERR e1 = CODictWrLong(&nmt->Node->Dict, CO_DEV(0x1016, sub), HccV1);
+        CO_ERR e2 = CODictWrLong(&nmt->Node->Dict, CO_DEV(0x1016, sub), HccV2);
+        printf("cb hbrewrite %d %d %d\n", sub, (int)e1, (int)e2);
+    }
+}
 CO_ERR COLssLoad(uint32_t *baud, uint8_t *id)
 {
     if (F_lssload > 0 && --F_lssload == 0) { printf("cb lssload FAIL\n"); return CO_ERR_LSS_LOAD; }
@@ -621,7 +633,7 @@ int main(void)
             step = 0;
         } else if (!strcmp(c, "lsspreset")) { LssHave = 1; LssBaud = U(1); LssNode = (uint8_t)U(2); step = 0;
         } else if (!strcmp(c, "init"))  { do_init(); Quiet = 0;
-        } else if (!strcmp(c, "restart")) { Tick = 0; HwCnt = 0; McbAct = 0; do_init();
+        } else if (!strcmp(c, "restart")) { Tick = 0; HwCnt = 0; McbAct = 0; HccSub = 0; do_init();
         } else if (!strcmp(c, "reinit")) {  /* the documented restart: stop, init and start again on the RAM as it is (no dictionary rebuild) */
             CONodeStop(Node); LockDepth = 0; RxHave = 0; CONodeInit(Node, &Spec);
         } else if (!strcmp(c, "start")) { CONodeStart(Node);
@@ -638,6 +650,7 @@ int main(void)
             uint32_t n = argc > 1 ? U(1) : 1;
             while (n--) { Tick++; (void)COTmrService(&Node->Tmr); }
         } else if (!strcmp(c, "tproc")) { COTmrProcess(&Node->Tmr);
+        } else if (!strcmp(c, "hbchangecb")) { HccSub = (int)U(1); HccV1 = X(2); HccV2 = X(3);
         } else if (!strcmp(c, "modecb")) { McbMode = (int)U(1); McbAct = !strcmp(ARG(2), "setmode") ? 1 : !strcmp(ARG(2), "trigpdo") ? 2 : 0; McbArg = argc > 3 ? (int)U(3) : 0;
         } else if (!strcmp(c, "setmode")) { CONmtSetMode(&Node->Nmt, (CO_MODE)U(1));
         } else if (!strcmp(c, "getmode")) { printf("ret %d\n", (int)CONmtGetMode(&Node->Nmt));
